@@ -144,7 +144,15 @@ func runOp(schema *jsonapi.Schema, ss *gen.SchemaSpec, op c12Op) string {
 }
 
 func c12Schema(t *rapid.T) *gen.SchemaSpec {
-	return gen.CoherentSchema(t, gen.SchemaOpts{MinTypes: 2, MaxTypes: 3, MaxAttrs: 4, MaxRelEdges: 5, AllKindsChance: 0})
+	o := gen.SchemaOpts{MinTypes: 2, MaxTypes: 3, MaxAttrs: 4, MaxRelEdges: 5, AllKindsChance: 0}
+
+	// "Every schema": one in three is large (a lookup structure may only be
+	// built beyond some size).
+	if rapid.IntRange(0, 2).Draw(t, "large") == 0 {
+		o.MinTypes, o.MaxTypes, o.MaxAttrs = 8, 14, 2
+	}
+
+	return gen.CoherentSchema(t, o)
 }
 
 // TestC12Sequential: every operation, alone, leaves the schema's exported
